@@ -23,6 +23,8 @@ from props.c16 import gen_text
 
 PROP = "C14"
 KEYWORDISH = ["print", "lambda", "def", "from", "None", "pass", "async", "f", "serialize", "markdown", "svg", "clone"]
+# the plain C locale with Python's UTF-8 mode and locale coercion switched off: the preferred encoding is ASCII
+C_LOCALE = {"LC_ALL": "C", "LANG": "C", "PYTHONUTF8": "0", "PYTHONCOERCECLOCALE": "0"}
 STEMS = ["basis", "geometry", "nav", "linear", "sfm", "slam", "base", "inference", "symbolic", "discrete", "a", "zz9"]
 THEOREM_MODULES = ["WrapModel.Props.C14"]
 
@@ -59,6 +61,55 @@ def reuse_case(idx, payload):
     return res
 
 
+def history_case(idx, payload):
+    """earlier wrap calls in the process: text B wrapped after text A (same declaration names, other members) in one
+    fresh process must equal text B wrapped alone in another fresh process — new wrapper objects each time, so that
+    only state outside the wrapper objects (class attributes, module-level caches, memo tables) can leak"""
+    import copy
+    import gen
+    seed, _ = payload
+    rng = random.Random(seed * 1000003 + idx + 424242)
+    g = gen.Gen(rng, gen.Cfg(max_decls=4, max_members=3, max_depth=1, matlab_safe=True, typedef_same_ns=True, unique_ns=True,
+                             rich_defaults=False, p_template=0.6, n_typedefs=3))
+    m = gen.gen_module_inst(g)
+    m2 = copy.deepcopy(m)
+    for _, content in gen.walk_namespaces(m2):
+        for d in content:
+            if d.kind == 'cls':
+                c = d.cls
+                keep = [mb for mb in c.members if mb.kind != 'ctor'][1:]
+                c.members = [gen.Member('ctor', name=c.name, args=[gen.Arg(gen.Ty([], "size_t", None, False, '', True), "n"),
+                                                                 gen.Arg(gen.Ty([], "bool", None, False, '', True), "flag")])] + keep
+    a = gen.layout(rng, gen.lexemes(m), 'space')
+    b = gen.layout(rng, gen.lexemes(m2), 'space')
+    res = dict(idx=idx, text=b, first=a, bad=None, runs=0)
+    d = tempfile.mkdtemp(prefix="verif_c14h_")
+    try:
+        outs = []
+        for name, texts, report in (("seq", [a, b, a], [1, 2]), ("b_alone", [b], [0]), ("a_alone", [a], [0])):
+            jp = os.path.join(d, name + ".json")
+            json.dump(dict(texts=texts, report=report), open(jp, "w", encoding="utf-8"))
+            r = run_script([os.path.join(fw.VERIF, "harness", "c14_history.py"), jp], d, {})
+            res["runs"] += 1
+            if r.returncode != 0:
+                raise RuntimeError("c14_history.py failed: " + r.stderr[-500:])
+            outs.append(json.loads(r.stdout))
+        seq, b_alone, a_alone = outs
+        for k, alone, label, t in (("1", b_alone["0"], "second", b), ("2", a_alone["0"], "third", a)):
+            for gen_name in ("pybind", "matlab"):
+                if seq[k][gen_name] != alone[gen_name]:
+                    x, y = alone[gen_name], seq[k][gen_name]
+                    dd = {}
+                    if gen_name == "pybind" and x[0] == y[0] == "ok":
+                        dd = streams.first_diff(x[1], y[1])
+                    res["bad"] = dict(what="%s output for the %s text of a process differs from wrapping it in a fresh process" % (gen_name, label),
+                                      input=t, earlier_inputs=[a, b][:int(k)], **dd)
+                    return res
+    finally:
+        shutil.rmtree(d, ignore_errors=True)
+    return res
+
+
 def run_script(args, cwd, env_extra):
     env = dict(os.environ, PYTHONPATH=REPO)
     env.update(env_extra)
@@ -78,6 +129,9 @@ def process_case(idx, payload):
     seed, _ = payload
     rng = random.Random(seed * 1000003 + idx + 70000)
     m, text = gen_text(rng, dict(max_depth=2, extra_kinds=['cls', 'ns']), serializable=0.3)
+    if rng.random() < 0.7:
+        # non-ASCII text in a comment or in a default value: the bytes must come through under every locale
+        text += rng.choice(["\n// Grüß Gott, 東京\n", "\nclass Ort { Ort(); void name(string s = \"Zürich\") const; };\n"])
     res = dict(idx=idx, text=text, bad=None, runs=0)
     base = tempfile.mkdtemp(prefix="verif_c14_")
     try:
@@ -95,12 +149,12 @@ def process_case(idx, payload):
         apim = impl_matlab([text], "modx", [], True)
         if api[0] != "ok" or apim[0] != "ok":
             return res
-        for hs, sub in (("0", "w1"), ("1", "w2/deeper"), ("4242", "w3")):
+        for hs, sub in (("0", "w1"), ("1", "w2/deeper"), ("4242", "w3"), ("7", "w4-c-locale")):
             cwd = os.path.join(base, sub)
             os.makedirs(cwd)
             before = set(listing(base))
             r = run_script([os.path.join(REPO, "scripts", "pybind_wrap.py"), "--src", ";".join([src] + subs), "--module_name", "modx", "--out", "o.cpp",
-                            "--template", tpl, "--use-boost-serialization"], cwd, {"PYTHONHASHSEED": hs, "LC_ALL": rng.choice(["C", "C.UTF-8"])})
+                            "--template", tpl, "--use-boost-serialization"], cwd, dict(C_LOCALE if sub == "w4-c-locale" else {"LC_ALL": rng.choice(["C", "C.UTF-8"])}, PYTHONHASHSEED=hs))
             res["runs"] += 1
             got = open(os.path.join(cwd, "o.cpp"), encoding="utf-8").read() if os.path.exists(os.path.join(cwd, "o.cpp")) else None
             if r.returncode != 0 or got != api[1]:
@@ -113,7 +167,7 @@ def process_case(idx, payload):
                 return res
             before = set(listing(base))
             r = run_script([os.path.join(REPO, "scripts", "matlab_wrap.py"), "--src", src, "--module_name", "modx", "--out", "tb",
-                            "--use-boost-serialization"], cwd, {"PYTHONHASHSEED": hs})
+                            "--use-boost-serialization"], cwd, dict(C_LOCALE if sub == "w4-c-locale" else {}, PYTHONHASHSEED=hs))
             res["runs"] += 1
             got = {k[len(sub) + 4:]: v.decode("utf-8") for k, v in listing(base).items() if k.startswith(os.path.join(sub, "tb") + os.sep)}
             if r.returncode != 0 or got != apim[1]:
@@ -163,9 +217,22 @@ def parallel_check(ctx, seed, nproc):
         shutil.rmtree(base, ignore_errors=True)
 
 
+def replay_finding(e):
+    w = e["witness"]
+    if w.get("kind") == "matlab_c_locale":
+        d = tempfile.mkdtemp(prefix="verif_c14k_")
+        try:
+            open(os.path.join(d, "in.i"), "w", encoding="utf-8").write(w["input"])
+            r = run_script([os.path.join(REPO, "scripts", "matlab_wrap.py"), "--src", "in.i", "--module_name", "m", "--out", "tb"], d, C_LOCALE)
+            return r.returncode != 0
+        finally:
+            shutil.rmtree(d, ignore_errors=True)
+    return False
+
+
 def run(ctx, n_reuse, n_proc, off=0, collect=True):
     first = None
-    for fn, n, tag in ((reuse_case, n_reuse, "reuse"), (process_case, n_proc, "process")):
+    for fn, n, tag in ((reuse_case, n_reuse, "reuse"), (process_case, n_proc, "process"), (history_case, n_proc * 2, "history")):
         for r in fw.run_cases(fn, [(ctx.seed + off, None)] * n):
             if "crash" in r:
                 raise RuntimeError(r["crash"])
@@ -188,6 +255,13 @@ def main(ctx):
     fw.audit(ctx, THEOREM_MODULES)
     run(ctx, ctx.scale(80, 1500), ctx.scale(10, 100))
     parallel_check(ctx, ctx.seed, ctx.scale(8, 16))
+    for e in ctx.known:
+        still = replay_finding(e)
+        if e.get("kind") == "fixed":
+            if still:
+                ctx.spec_fail("a defect recorded as fixed is back: " + e["what"], **e["witness"])
+        elif still:
+            ctx.known_hit(e)
     ctx.extra["rule"] = ("(a) one PybindWrapper object wrapping 2-4 generated files in a row vs fresh wrappers; (b) both scripts as "
                          "subprocesses under 3 hash seeds / working directories / locales, outputs and written file sets compared "
                          "with the in-process API; (c) 8-16 script processes in parallel in one directory")
